@@ -194,23 +194,29 @@ def m_getattr(vm, s, args, kw):
     if type(obj) is Union or type(name) is Union:
         obj = vm.project(s, obj)
     res = []
-    for go, o in alts_of(obj):
-        for gn, n in alts_of(name):
-            g = AND(go, gn)
-            if AND(s.guard, g) is FALSE:
-                continue
-            try:
-                kind, v = load_attr_atomic(vm, s, o, n)
-                res.append((g, VMethod(v, o) if kind == "method" else v))
-            except _NeedCall as nc:
-                if type(obj) is Union or type(name) is Union:
-                    raise Unsupported("getattr() of a property on a merged receiver")
-                return _pending(vm.do_call(s, nc.fn, nc.args, {}, ("push",)))
-            except VMRaise as e:
-                if isinstance(e.exc, AttributeError) and default is not MISSING:
-                    res.append((g, default))
-                else:
-                    vm.raise_under(s, g, e.exc)
+    cg0 = s.cg
+    try:
+        for go, o in alts_of(obj):
+            for gn, n in alts_of(name):
+                g = AND(go, gn)
+                if AND(s.guard, g) is FALSE:
+                    continue
+                s.cg = AND(cg0, g)
+                try:
+                    kind, v = load_attr_atomic(vm, s, o, n)
+                    res.append((g, VMethod(v, o) if kind == "method" else v))
+                except _NeedCall as nc:
+                    if type(obj) is Union or type(name) is Union:
+                        raise Unsupported("getattr() of a property on a merged receiver")
+                    s.cg = cg0
+                    return _pending(vm.do_call(s, nc.fn, nc.args, {}, ("push",)))
+                except VMRaise as e:
+                    if isinstance(e.exc, AttributeError) and default is not MISSING:
+                        res.append((g, default))
+                    else:
+                        vm.raise_under(s, TRUE, e.exc)
+    finally:
+        s.cg = cg0
     return mk_union(res)
 
 
@@ -325,6 +331,10 @@ def m_list(vm, s, args, kw):
     if not args:
         return VList(birth=s.guard)
     x = args[0]
+    if type(x) is VGen:
+        # list(generator): drain it; the consumer does nothing between two yields, so this is exact
+        out = VList(birth=s.guard)
+        return _pending(vm.resume_gen(s, x, None, "drain", (out, ("push",))))
     if _has_gen(x):
         return _pending(vm.do_call(s, prelude.p_list, [x], {}, ("push",)))
     return C.copy_list(vm, s, x)
